@@ -23,6 +23,9 @@ type selfMutant struct {
 	Only  string   // engine package filter (speeds up engine rules)
 	Props []string // when set: the properties whose view contains the mutated package
 	Why   string
+	// Silent: the variant preserves behaviour (an idiom a maintainer might switch to); the rule must NOT report it.
+	// A rule that does is too narrow: the check is broken in the other direction (false alarm in waiting).
+	Silent bool
 }
 
 var selfMutants = []selfMutant{
@@ -98,6 +101,10 @@ var selfMutants = []selfMutant{
 	{Rule: "R-EOF", File: "json/parse.go", Only: "json", Old: "		} else if c == 0 { // EOF\n			return ErrorGrammar, nil", New: "		} else if c == 0 { // EOF\n			return WhitespaceGrammar, nil", Why: "end of input not reported"},
 	{Rule: "R-ERRMOVE", File: "js/lex.go", Only: "js", Old: "			l.err = parse.NewErrorLexer(l.r, \"invalid number\")\n", New: "", Why: "error token after consuming input without recording an error"},
 	{Rule: "R-ERRMOVE", File: "css/lex.go", Only: "css", Old: "	case 0:\n		if l.r.Err() != nil {\n			return ErrorToken, nil\n		}\n", New: "	case 0:\n		return ErrorToken, nil\n", Props: []string{"C01"}, Why: "any NUL byte is taken for the end of input"},
+	// look-ahead index idiom (eng_idx.go): scan with Peek(n), move once — correct form must pass, the form that does not stop at NUL must not
+	{Rule: "R-CURSOR", File: "json/parse.go", Only: "json", Silent: true, Old: "	for {\n		if c := p.r.Peek(0); c != ' ' && c != '\\n' && c != '\\r' && c != '\\t' {\n			break\n		}\n		p.r.Move(1)\n	}\n}", New: "	n := 0\n	for c := p.r.Peek(n); c == ' ' || c == '\\n' || c == '\\r' || c == '\\t'; c = p.r.Peek(n) {\n		n++\n	}\n	p.r.Move(n)\n}", Why: "whitespace skipped with a look-ahead index and one Move (behaviour-preserving)"},
+	{Rule: "R-PROGRESS", File: "json/parse.go", Only: "json", Silent: true, Old: "	for {\n		if c := p.r.Peek(0); c != ' ' && c != '\\n' && c != '\\r' && c != '\\t' {\n			break\n		}\n		p.r.Move(1)\n	}\n}", New: "	n := 0\n	for c := p.r.Peek(n); c == ' ' || c == '\\n' || c == '\\r' || c == '\\t'; c = p.r.Peek(n) {\n		n++\n	}\n	p.r.Move(n)\n}", Why: "whitespace skipped with a look-ahead index and one Move (behaviour-preserving) "},
+	{Rule: "R-CURSOR", File: "json/parse.go", Only: "json", Old: "	for {\n		if c := p.r.Peek(0); c != ' ' && c != '\\n' && c != '\\r' && c != '\\t' {\n			break\n		}\n		p.r.Move(1)\n	}\n}", New: "	n := 0\n	for c := p.r.Peek(n); c != '\"'; c = p.r.Peek(n) {\n		n++\n	}\n	p.r.Move(n)\n}", Why: "look-ahead index loop that does not stop at the terminator"},
 	{Rule: "R-ERRSTUCK", File: "js/lex.go", Only: "js", Old: "	l.r.MoveRune() // allow to continue after error\n", New: "", Why: "error path no longer consumes the offending rune"},
 	{Rule: "R-TILE", File: "css/lex.go", Only: "css", Old: "	case ':':\n		l.r.Move(1)", New: "	case ':':\n		l.r.Skip()\n		l.r.Move(1)", Why: "css lexer skips bytes"},
 	{Rule: "R-SPELL", File: "css/lex.go", Only: "css", Old: "		case '^':\n			l.r.Move(2)\n			return PrefixMatchToken", New: "		case '^':\n			l.r.Move(2)\n			return SuffixMatchToken", Why: "'^=' returned as SuffixMatch"},
@@ -242,6 +249,12 @@ func SelfTest(r *core.Run, cfg core.LoadConfig) {
 			r.Note("self-test variant for %s is stale (%s): %s", x.m.Rule, x.m.Why, x.err)
 		case x.err != "":
 			r.Broken = append(r.Broken, fmt.Sprintf("self-test variant for %s (%s): %s", x.m.Rule, x.m.Why, x.err))
+		case x.m.Silent && x.fired:
+			r.Broken = append(r.Broken, fmt.Sprintf("rule too narrow: %s reports the behaviour-preserving variant in %s (%s): %s", x.m.Rule, x.m.File, x.m.Why, x.det))
+		case x.m.Silent:
+			fired++
+			r.SetRule(x.m.Rule)
+			r.OK(fmt.Sprintf("self-test: %s is silent on behaviour-preserving variant %q", x.m.Rule, x.m.Why), token.NoPos, "")
 		case !x.fired:
 			r.Broken = append(r.Broken, fmt.Sprintf("rule not armed: %s did not report the seeded variant in %s (%s)", x.m.Rule, x.m.File, x.m.Why))
 		default:
@@ -251,6 +264,6 @@ func SelfTest(r *core.Run, cfg core.LoadConfig) {
 		}
 	}
 	r.Count("self-test variants run (overlay, nothing written to disk)", len(todo))
-	r.Count("self-test variants that fired", fired)
+	r.Count("self-test variants that behaved as required (fired / stayed silent)", fired)
 	r.Count("self-test variants stale", stale)
 }
